@@ -65,6 +65,9 @@ pub enum Ev {
     RelayBurst(usize),
     /// the link is black-holed for `secs` idle seconds and then repaired (long enough: it is re-opened)
     Outage(usize, u64),
+    /// every link is black-holed for `secs` idle seconds, then all are repaired and idle seconds pass until one of
+    /// them is registered again (so that the next event finds a freshly re-registered link)
+    OutageAll(u64),
     /// rewrite the ips file with the given content and send SIGHUP (applied by the next housekeeping pass)
     Reload(&'static str),
     /// a subscriber of the given topic with a one-line channel that never reads
@@ -87,6 +90,8 @@ pub struct LoopModel {
     pub single_thread: bool,
     /// also drive a mirrored world with the same stimuli and compare after every step
     pub lockstep: bool,
+    /// link 1 is black-holed from the very start (it never registers until repaired)
+    pub start_fault: bool,
 }
 
 impl LoopModel {
@@ -95,7 +100,7 @@ impl LoopModel {
         match level {
             // streaming / relay alphabet
             0 => {
-                events.extend([Ev::Burst, Ev::Relay(0, 16), Ev::Relay(1, 1316), Ev::Relay(0, 1500), Ev::ClientLen(1), Ev::ClientLen(1500), Ev::Fault(1, Mode::BlackHole), Ev::Repair(1), Ev::RelayBurst(1), Ev::Outage(1, 7), Ev::Trickle]);
+                events.extend([Ev::Burst, Ev::Relay(0, 16), Ev::Relay(1, 1316), Ev::Relay(0, 1500), Ev::ClientLen(1), Ev::ClientLen(1500), Ev::Fault(1, Mode::BlackHole), Ev::Repair(1), Ev::RelayBurst(1), Ev::Outage(1, 7), Ev::Trickle, Ev::OutageAll(8)]);
             }
             // fault alphabet
             1 => {
@@ -141,7 +146,12 @@ impl LoopModel {
             if classic { "classic" } else { "enhanced" },
             ["streaming", "faults", "bind-faults", "long-outage", "reloads", "frozen-subscribers"][level.min(5) as usize]
         );
-        Self { n, timeout, classic, events, name, single_thread: level == 4, lockstep: false }
+        Self { n, timeout, classic, events, name, single_thread: level == 4, lockstep: false, start_fault: false }
+    }
+    pub fn with_start_fault(mut self) -> Self {
+        self.start_fault = true;
+        self.name = format!("{} link-1-dead-from-the-start", self.name);
+        self
     }
     pub fn with_lockstep(mut self) -> Self {
         self.lockstep = true;
@@ -354,9 +364,8 @@ impl<'a> Run<'a> {
         let now = self.now();
         let timeout = self.timeout;
         self.cov.socket_recreations += 1;
-        // a change of the configured timeout takes effect at the next pass: for one (old) timeout's length after a
-        // change either value may still explain a teardown
-        let timeout = if now.saturating_sub(self.timeout_changed_at) <= self.timeout_prev.max(self.timeout) + 2000 { timeout.min(self.timeout_prev) } else { timeout };
+        // a change of the configured timeout is read by the next pass, and a teardown is only ever observed at a
+        // pass: the value configured now is the one that pass enforced
         let k = &self.links[l];
         if k.established {
             if now.saturating_sub(k.last_live_delivery) < timeout {
@@ -556,7 +565,7 @@ impl<'a> Run<'a> {
             }
             // detection and retry
             let k = &self.links[l];
-            let det_timeout = if now.saturating_sub(self.timeout_changed_at) <= self.timeout_prev.max(self.timeout) + 2000 { timeout.max(self.timeout_prev) } else { timeout };
+            let det_timeout = timeout;
             if k.established && st.connected && now.saturating_sub(k.last_delivery) >= det_timeout + 6000 && now - k.last_socket_change >= 6000 {
                 return Err(Fail::new(
                     "real:silent-link-not-torn-down",
@@ -951,6 +960,26 @@ impl<'a> Run<'a> {
                 self.check_forwarded()?;
                 self.acks().await
             }
+            Ev::OutageAll(secs) => {
+                for k in self.links.iter_mut() {
+                    if k.present {
+                        k.mode = Mode::BlackHole;
+                    }
+                }
+                for _ in 0..secs {
+                    self.second(false).await?;
+                }
+                for k in self.links.iter_mut() {
+                    k.mode = Mode::Ok;
+                }
+                for _ in 0..12 {
+                    if self.links.iter().any(|k| k.present && k.reg3_on_this_socket && k.rec_known) {
+                        break;
+                    }
+                    self.second(false).await?;
+                }
+                Ok(())
+            }
             Ev::Outage(l, secs) if l < n => {
                 self.links[l].mode = Mode::BlackHole;
                 for _ in 0..secs {
@@ -993,6 +1022,10 @@ impl<'a> Run<'a> {
 
     /// Start-up script: registration of every link, three quiet seconds (Warming -> Live, RTT baseline).
     async fn establish(&mut self) -> Result<(), Fail> {
+        if self.m.start_fault && self.m.n > 1 {
+            self.links[1].mode = Mode::BlackHole;
+            self.links[1].ok_since = None;
+        }
         let mut o = StepOut::default();
         self.rig.settle(&mut o).await.map_err(|e| Fail::new("MACHINERY", e))?;
         if let Some(t) = self.twin.as_mut() {
@@ -1004,11 +1037,11 @@ impl<'a> Run<'a> {
         for _ in 0..8 {
             let hk = self.next_hk;
             self.to(hk).await?;
-            if self.links.iter().all(|k| !k.present || k.established) && self.passes >= 5 {
+            if self.links.iter().all(|k| !k.present || k.established || k.mode == Mode::BlackHole) && self.passes >= 5 {
                 break;
             }
         }
-        if !self.links.iter().all(|k| !k.present || k.established) {
+        if !self.links.iter().all(|k| !k.present || k.established || k.mode == Mode::BlackHole) {
             return Err(Fail::new("MACHINERY", "start-up script: not every link registered within 8 s".into()));
         }
         Ok(())
@@ -1254,8 +1287,10 @@ pub fn replay(models: &[LoopModel], v: &Value) -> Option<Result<(), String>> {
         return None;
     }
     let path: Vec<usize> = v["path"].as_array().map(|a| a.iter().map(|x| x.as_u64().unwrap_or(0) as usize).collect()).unwrap_or_default();
-    for m in models {
-        if label.starts_with(&m.name) {
+    // the model whose name is the longest prefix of the label (names extend one another: "... lockstep")
+    let best = models.iter().filter(|m| label.starts_with(&format!("{} ", m.name))).max_by_key(|m| m.name.len());
+    for m in best.into_iter() {
+        {
             let r1 = run_path(m, &path).fail.map(|x| x.1);
             let r2 = run_path(m, &path).fail.map(|x| x.1);
             if r1.as_ref().map(|f| f.key.clone()) != r2.as_ref().map(|f| f.key.clone()) {
@@ -1313,6 +1348,8 @@ pub fn plans_of(prop: &str, quick: bool) -> Vec<(LoopModel, RealPlan)> {
             v.push((LoopModel::new(2, 15000, true, 3), RealPlan::Dev { k: 1, depth: 40, default: 0 }));
             v.push((LoopModel::new(2, 5000, false, 3), RealPlan::Dev { k: 2, depth: if quick { 24 } else { 110 }, default: 0 }));
             v.push((LoopModel::new(2, 5000, false, 2), RealPlan::Dev { k: 2, depth: if quick { 10 } else { 30 }, default: 1 }));
+            // a link that is dead from the very start and repaired later (default symbol SecIdle)
+            v.push((LoopModel::new(2, 5000, false, 3).with_start_fault(), RealPlan::Dev { k: 1, depth: if quick { 42 } else { 60 }, default: 0 }));
             if !quick {
                 v.push((LoopModel::new(2, 1000, false, 1), RealPlan::Dev { k: 2, depth: 20, default: 0 }));
                 v.push((LoopModel::new(3, 5000, true, 1), RealPlan::Dev { k: 2, depth: 20, default: 0 }));
